@@ -104,6 +104,10 @@ def grid():
         C("gamma", [a, sc], stats.gamma(a, scale=sc), 0)
     for a, b in ((0.2, 0.2), (0.5, 0.5), (0.5, 3), (3, 0.5), (1, 1), (2, 5), (50, 50), (0.05, 1)):
         C("std_beta", [a, b], stats.beta(a, b), 0, 1)
+    # both shapes below one and unequal (the ratio is formed from logarithms there). Not smaller than 0.3: beta(a, b) has the mass
+    # (2^-53)^b within half an ulp of 1, which a double can only report as 1.0 - an atom the continuous reference does not have
+    for a, b in ((0.3, 0.7), (0.6, 0.4), (0.9, 0.3), (0.35, 0.35)):
+        C("std_beta", [a, b], stats.beta(a, b), 0, 1)
     # shape pairs that differ by exactly one, both orders (internal state shared between consecutive gamma draws)
     for a, b in ((1.5, 0.5), (0.5, 1.5), (1.25, 0.25), (1.9, 0.9), (2.0, 1.0), (1.0, 2.0)):
         C("std_beta", [a, b], stats.beta(a, b), 0, 1)
@@ -185,6 +189,29 @@ def grid():
     S("PERT_mod", [1e9, 1e9 + 0.1e-4, 1e9 + 1e-4, 0.3], 1e9, 1e9 + 1e-4)
     S("uniform", [1e15, 1e15 + 2], 1e15, 1e15 + 2)
     S("triangular", [1e9, 1e9 + 0.5e-4, 1e9 + 1e-4], 1e9, 1e9 + 1e-4)
+    # very small shapes (both boosted gammas can underflow to zero), also drawn by a simulated process
+    for ab in ((0.0037, 0.0037), (0.0012, 0.0012), (0.01, 0.0005), (0.0002, 0.3)):
+        S("std_beta", list(ab), 0, 1)
+    S("proc:std_beta", [0.002, 0.002], 0, 1)
+    S("beta", [0.001, 0.001, -2, 3], -2, 3)
+    S("std_gamma", [0.0005], 0, inf)
+    # success probabilities near zero: 1 - p rounds to 1; the count does not fit the return type
+    S("geometric", [1e-17], 1, inf, integer=True)
+    S("geometric", [1e-12], 1, inf, integer=True)
+    S("geometric", [3e-10], 1, 4294967295, integer=True)
+    S("proc:geometric", [1e-17], 1, inf, integer=True)
+    # dice far from zero, where base + offset is no longer exact in a double: offsets reported
+    for base, width in ((0, 1), (0, 2), (1, 5), (2, 5), (3, 40), (4, 5), (5, 6)):
+        S("dice_at", [base, width], 0, width, integer=True)
+    # degenerate and huge parameters that satisfy the asserted preconditions
+    S("proc:triangular", [5, 5, 5], 5, 5)
+    S("proc:triangular", [2, 2, 3], 2, 3)
+    S("proc:triangular", [2, 3, 3], 2, 3)
+    S("triangular", [0, 1e160, 1e200], 0, 1e200)
+    S("uniform", [-1e308, 1e308], -1e308, 1e308)
+    S("uniform", [-1.7e308, 1.7e308], -1.7e308, 1.7e308)
+    S("rayleigh", [1e160], 0, 1.7e308)
+    S("rayleigh", [1e-170], 1e-185, 1e-160)      # (a correct draw is below 1e-185 with probability 5e-31)
     # degenerate triangular: support only
     S("triangular", [2, 2, 2], 2, 2)
     return G
